@@ -668,11 +668,39 @@ def opsig(repo):
             res.add(f"{tc.rel}|{f.qualname}|{name}", f"operator table row {name} is (result={have[0]}, args={have[1]}, "
                     f"min={have[2]}, max={have[3]}); the documented signature is (result={want[0]}, args={want[1]}, "
                     f"min={want[2]}, max={want[3]})", tc.rel, table.lineno, f.qualname)
+    # the row's argument check is applied to *every* argument: the loop that calls it iterates the operator's whole
+    # argument list (variadic $max has min_args == 1, so a prefix of the arguments is not enough)
+    tuple_names = []
+    for n in walk_no_nested_funcs(f.node):
+        if isinstance(n, ast.Assign) and isinstance(n.targets[0], ast.Tuple) and isinstance(n.value, ast.Subscript) \
+                and "functions" in ast.unparse(n.value):
+            tuple_names = [e.id for e in n.targets[0].elts if isinstance(e, ast.Name)]
+    checker = tuple_names[1] if len(tuple_names) > 1 else "check_arg"
+    loops = [n for n in walk_no_nested_funcs(f.node) if isinstance(n, ast.For)
+             and any(isinstance(c, ast.Call) and isinstance(c.func, ast.Name) and c.func.id == checker for c in ast.walk(n))]
+    res.instances += 1
+    if not loops:
+        res.add(f"{tc.rel}|{f.qualname}|argument-loop", f"no loop applies `{checker}` to the operator's arguments", tc.rel, table.lineno, f.qualname)
+    for lp in loops:
+        it = lp.iter
+        first = it.args[0] if isinstance(it, ast.Call) and (call_name(it) or "") in ("zip", "enumerate") and it.args else it
+        whole = isinstance(first, ast.Name) and alias_of_args(f, first.id) or ast.unparse(first).endswith("function.args")
+        if not whole:
+            res.add(f"{tc.rel}|{f.qualname}|argument-loop", f"the argument check runs over `{ast.unparse(first)}`, not over all arguments "
+                    "of the operator: later arguments of a variadic function (`$max(a, true)`) are never type-checked and crash "
+                    "the bounds computation", tc.rel, lp.lineno, f.qualname)
     for name in sorted(set(rows) - set(OPSIG)):
         res.notes.append(f"operator table has an additional row {name} (no documented signature on file)")
     res.samples = [f"{k}: {v}" for k, v in list(rows.items())[:2]]
     res.analysed = [tc.rel]
     return res
+
+
+def alias_of_args(f, name):
+    """name is bound (once) to `<expression>.function.args`."""
+    vals = [n.value for n in walk_no_nested_funcs(f.node) if isinstance(n, ast.Assign) and len(n.targets) == 1
+            and isinstance(n.targets[0], ast.Name) and n.targets[0].id == name]
+    return len(vals) == 1 and ast.unparse(vals[0]).endswith("function.args")
 
 
 def first_contact_asserts(repo, schema=None):
@@ -1533,4 +1561,46 @@ def attrbackend(repo):
     if res.instances < 6 and not res.findings:
         raise AnalysisError(f"only {res.instances} attribute lookups recognised")
     res.analysed = [iu.rel, au.rel, hg.rel]
+    return res
+
+
+def bitsfixed(repo):
+    """R-BITSFIXED (C14): "`bits` types are fixed size and at most 64 bits" holds for *every* bit-addressable structure --
+    named, inline or anonymous.  In the validator that issues these two errors (it reads the FIXED_SIZE attribute of a
+    type definition and compares it with None and with 64) the only early exit before the tests is the one for
+    structures that are not bit-addressable: every `return` that precedes the `is None` test sits under a condition
+    that mentions `addressable_unit` and nothing else about the type (no `is_anonymous`, no name test)."""
+    res = RuleResult("R-BITSFIXED")
+    m = repo.mod("compiler/front_end/constraints.py")
+    target = None
+    for f in m.top_funcs():
+        src = ast.unparse(f.node)
+        if "FIXED_SIZE" in src and "> 64" in src and "is None" in src and "errors.append" in src and "AddressableUnit.BIT" in src \
+                and len(f.node.args.args) <= 5 and "field" not in [a.arg for a in f.node.args.args]:
+            target = f
+    if target is None:
+        raise AnalysisError("constraints: the validator for the size of `bits` types was not found")
+    f = target
+    none_test = None
+    for i, st in enumerate(f.node.body):
+        if isinstance(st, ast.If) and "is None" in ast.unparse(st.test) and "errors.append" in ast.unparse(st):
+            none_test = i
+            break
+    if none_test is None:
+        raise AnalysisError(f"{f.name}: the `fixed size is None` test is not a top-level statement")
+    res.instances = 1
+    for st in f.node.body[:none_test]:
+        for n in ast.walk(st):
+            if isinstance(n, ast.If) and any(isinstance(x, ast.Return) for x in n.body):
+                res.instances += 1
+                names = {x.attr for x in ast.walk(n.test) if isinstance(x, ast.Attribute)} | {x.id for x in ast.walk(n.test) if isinstance(x, ast.Name)}
+                if "addressable_unit" not in names or (names & {"is_anonymous", "name", "text", "is_synthetic"}):
+                    res.add(f"{m.rel}|{f.name}|exemption", f"{f.name} returns before testing the size when `{ast.unparse(n.test)[:70]}`: "
+                            "those `bits` types are exempt from 'must be fixed size' / 'at most 64 bits' (an anonymous `bits:` whose "
+                            "member offsets depend on another member is accepted)", m.rel, n.lineno, f.name)
+    # a second pair of eyes on the 64: the comparison constant
+    if not any(isinstance(n, ast.Compare) and isinstance(n.ops[0], ast.Gt) and isinstance(n.comparators[0], ast.Constant)
+               and n.comparators[0].value == 64 for n in ast.walk(f.node)):
+        res.add(f"{m.rel}|{f.name}|limit", f"{f.name} no longer compares the size with 64", m.rel, f.node.lineno, f.name)
+    res.analysed = [m.rel]
     return res
